@@ -436,6 +436,59 @@ theorem step_ext {cfg : Cfg α} {s s' : St α} (a : Act) (hs : step cfg s a = so
     · cases hs
   · exact absurd rfl ha
 
+/-- `dropped` is only ever set by a step that closes (or on an already closed connection) -/
+theorem step_dropped {cfg : Cfg α} {s s' : St α} (a : Act) (hs : step cfg s a = some s')
+    (h : s.dropped = true → s.closed = true) : s'.dropped = true → s'.closed = true := by
+  cases a with
+  | parse =>
+    simp only [step] at hs
+    split at hs
+    · split at hs <;> cases hs <;> exact h
+    · cases hs
+  | start =>
+    simp only [step] at hs
+    split at hs
+    · split at hs
+      · cases hs; exact h
+      · cases hs
+    · cases hs
+  | write k =>
+    simp only [step] at hs
+    split at hs
+    · split at hs
+      · cases hs; exact h
+      · split at hs <;> cases hs <;> exact h
+    · cases hs
+  | flush k =>
+    simp only [step] at hs
+    split at hs
+    · cases hs; exact h
+    · cases hs
+  | finish =>
+    simp only [step] at hs
+    split at hs
+    · cases hs
+      intro hd
+      simp only [Bool.or_eq_true, Bool.and_eq_true] at hd ⊢
+      rcases hd with hd | ⟨⟨hc, _⟩, _⟩
+      · left; exact h hd
+      · right; exact hc
+    · cases hs
+  | extClose =>
+    simp only [step] at hs
+    cases hs; intro _; rfl
+
+theorem run_dropped {cfg : Cfg α} (acts : List Act) : ∀ (s : St α), (s.dropped = true → s.closed = true) →
+    (run cfg s acts).dropped = true → (run cfg s acts).closed = true := by
+  induction acts with
+  | nil => intro s h; exact h
+  | cons a as ih =>
+    intro s h
+    simp only [run]
+    split
+    · rename_i s' hs; exact ih s' (step_dropped a hs h)
+    · exact ih s h
+
 /-- the kernel takes every write in full: no backlog ever forms, so no close can drop anything -/
 theorem step_full {cfg : Cfg α} {s s' : St α} (a : Act) (hs : step cfg s a = some s')
     (ha : ∀ k, a ≠ .write (some k)) (hp : s.pending = []) (hd : s.dropped = false) :
